@@ -128,6 +128,20 @@ Theorem binary_search_terminates : forall m a k,
 Proof. exact binary_search_terminates_lemma. Qed.
 Print Assumptions binary_search_terminates.
 
+(* -- addr2line names repaired from nm: the table attached to an addr2Liner is keyed by runtime
+      addresses (link address + base) and is asked about the runtime address itself; the frames
+      returned are the replacement rule applied to an answer the lookup specification accepts for
+      that runtime address -- *)
+Theorem a2l_fixup_meets_spec : forall base raw addr stack,
+  spec_a2l_fixup (shift_syms base raw) addr stack
+                 (a2l_addr_info base (Some (shift_syms base raw)) addr stack) = true.
+Proof. exact a2l_fixup_meets_spec_lemma. Qed.
+Print Assumptions a2l_fixup_meets_spec.
+
+Theorem a2l_without_nm_unchanged : forall base addr stack, a2l_addr_info base None addr stack = stack.
+Proof. exact a2l_no_nm_lemma. Qed.
+Print Assumptions a2l_without_nm_unchanged.
+
 (* -- the hypotheses are satisfiable -- *)
 (* exe_linux_64 of binutils_test.go (LOAD off 0 vaddr 0x400000 filesz 0x6fc R E; LOAD off 0xe10 vaddr
    0x600e10 filesz 0x230 memsz 0x238 RW) as a PIE image at bias 0x555555554000 *)
@@ -147,3 +161,12 @@ Example ex_sorted :
                {| sy_addr := 4128; sy_size := 8; sy_name := "d"; sy_type := "D" |} ]%string in
   sortedb tab = true /\ addr_info tab 4100 = Some "f"%string /\ addr_info tab 4136 = None.
 Proof. vm_compute. repeat split; reflexivity. Qed.
+
+(* base 0x100: the runtime address 0x1250 lies in "_ZN3foo3barEv" (link 0x1100 + base); a table lookup
+   at address - base would have found "_ZN3foo3bazEv" *)
+Example ex_a2l_fixup :
+  let raw := [ {| sy_addr := 4096; sy_size := 256; sy_name := "_ZN3foo3bazEv"; sy_type := "T" |};
+               {| sy_addr := 4352; sy_size := 256; sy_name := "_ZN3foo3barEv"; sy_type := "T" |} ]%string in
+  sortedb (shift_syms 256 raw) = true /\
+  a2l_addr_info 256 (Some (shift_syms 256 raw)) 4688 ["inl"; "_ZN3foo"]%string = ["inl"; "_ZN3foo3barEv"]%string.
+Proof. vm_compute. split; reflexivity. Qed.
